@@ -243,6 +243,23 @@ def strategy_structure_large():
     return case()
 
 
+def _strategy_structure_many(counts: list):
+    """One axis is cut into more than a thousand blocks (embedding-table-like parameters with a small max_preconditioner_dim)."""
+    from hypothesis import strategies as st
+
+    @st.composite
+    def case(draw: Any) -> dict:
+        mpd = draw(st.sampled_from([1, 2, 3, 4, 4]))
+        nb = draw(st.sampled_from(counts)) + draw(st.integers(0, 40))
+        long_dim = mpd * nb + draw(st.integers(0, mpd - 1))
+        others = [draw(st.sampled_from([1, 2, 3, 5, 6, mpd, mpd + 1])) for _ in range(draw(st.integers(0, 2)))]
+        pos = draw(st.integers(0, len(others)))
+        shape = others[:pos] + [long_dim] + others[pos:]
+        return {"shapes": [shape], "mpd": mpd, "merge": draw(st.booleans()), "mask": [True]}
+
+    return case()
+
+
 # --------------------------------------------------------------------------- metamorphic
 def strategy_meta():
     from hypothesis import strategies as st
@@ -253,6 +270,15 @@ def strategy_meta():
                                  allow_ignored=True, kinds=("shampoo", "shampoo", "soap")))
         k = draw(st.integers(1, 3))
         shapes = [draw(gen.st_shape(cfg["mpd"], max_order=4, max_numel=200)) for _ in range(k)]
+        if cfg["precond"]["kind"] == "shampoo" and not cfg["precond"].get("ignored") and draw(st.sampled_from([False] * 5 + [True])):
+            # forced class: a per-order override list together with merging that lowers the order (size-1 or small dimensions are fused), so that
+            # the block's order differs from the tensor's and the list is as long as the tensor's order
+            cfg["merge"] = True
+            cfg["mpd"] = draw(st.sampled_from([8, 12, 16]))
+            shapes = [draw(st.sampled_from([[1, 7], [3, 4, 20], [2, 2, 2, 9], [5, 1, 3], [1, 1, 6], [2, 3, 30], [2, 2, 40]])) for _ in range(k)]
+            L = max(len(sh) for sh in shapes)
+            cfg["override"] = [draw(st.sampled_from([1, 2, 3, 4, 6])) for _ in range(draw(st.integers(1, L)))]
+            cfg["start"] = min(cfg["start"], cfg["freq"] + 1) if cfg["start"] != -1 else -1
         T = draw(st.integers(2, 6))
         steps = draw(st.lists(gen.st_step(k, cfg["gscale"], edits=False), min_size=T, max_size=T))
         return {"cfg": cfg, "shapes": shapes, "steps": steps, "pseed": draw(st.integers(0, 10**5))}
@@ -369,5 +395,7 @@ STREAMS = {
     "structure_grid": Stream("structure_grid", oracle=oracle_structure, enumerate=enumerate_grid, exhaustive=True, shards_quick=8, shards_thorough=16),
     "structure": Stream("structure", oracle=oracle_structure, strategy=strategy_structure, quick=6000, thorough=150000, shards_quick=4, shards_thorough=16),
     "structure_large": Stream("structure_large", oracle=oracle_structure, strategy=strategy_structure_large, quick=600, thorough=20000, shards_quick=4, shards_thorough=16),
+    "structure_many": Stream("structure_many", oracle=oracle_structure, strategy=lambda: _strategy_structure_many([1024, 1024, 1030, 1100, 2048]), quick=64, thorough=1500, shards_quick=16, shards_thorough=16),
+    "structure_huge": Stream("structure_huge", oracle=oracle_structure, strategy=lambda: _strategy_structure_many([4096, 8192, 16384, 65536]), quick=0, thorough=48, shards_quick=16, shards_thorough=16),
     "metamorphic": Stream("metamorphic", oracle=oracle_meta, strategy=strategy_meta, quick=1200, thorough=30000, shards_quick=16, shards_thorough=16),
 }
